@@ -31,6 +31,7 @@ HANDLERS = {
     "exec_py": ("harness.py.exec_cmd", "run"),
     "exec1": ("harness.py.exec_cmd", "run_nolog"),
     "exec_split": ("harness.py.exec_cmd", "run_split"),
+    "exec1_by": ("harness.py.exec_cmd", "run_bystander"),
 }
 
 
